@@ -53,13 +53,16 @@ def check_case(case):
         if isinstance(got, Raised) and s_val is False:
             r.outcome("raised-where-false")
             return False
-        if p_val is not None and p_val not in (UNDEF, ILL) and got is p_val:
-            r.outcome("parser-fault (C01's business)")
-            return False
+        at_parse_time = p_val is not None and p_val not in (UNDEF, ILL) and got is p_val
+        if at_parse_time:
+            # the structure built at parse time (parser + expression-tree construction) already reads differently from
+            # the text: C01 reports it too; the answer is wrong for the precondition as written all the same
+            r.outcome("disagree-already-at-parse-time")
         r.outcome("disagree")
-        r.fail("applicability" if order is None else "applicability-order",
+        r.fail(("applicability-as-written" if at_parse_time else "applicability") if order is None else "applicability-order",
                f"call (a {' '.join(args)}) state={st.to_json()} order={order}: implementation={show(got)} "
-               f"source-reading={s_val} parsed-reading={p_val} pre={case['pre']}",
+               f"source-reading={s_val} parsed-reading={p_val}"
+               f"{' (the parsed structure already differs from the text)' if at_parse_time else ''} pre={case['pre']}",
                expected=s_val, observed=show(got), tags=case.get("tags", []))
         return True
 
